@@ -120,52 +120,52 @@ Fixpoint str_upper (s : string) : string :=
 (* ------------------------------------------------------------------ *)
 (* float values (None = NaN) and the constraint functions             *)
 (* ------------------------------------------------------------------ *)
-Definition fval := option xq.
+Definition js_fval := option xq.
 
-Definition xabs (a : xq) : xq :=
+Definition js_xabs (a : xq) : xq :=
   match a with NInf => PInf | PInf => PInf | Fin q => Fin (Qabs q) end.
 
 (* x - y ; inf - inf = NaN *)
-Definition fsub (x : fval) (y : xq) : fval :=
+Definition js_fsub (x : js_fval) (y : xq) : js_fval :=
   match x with Some a => xadd a (xneg y) | None => None end.
-Definition fabs (x : fval) : fval :=
-  match x with Some a => Some (xabs a) | None => None end.
-Definition fadd (x y : fval) : fval :=
+Definition js_fabs (x : js_fval) : js_fval :=
+  match x with Some a => Some (js_xabs a) | None => None end.
+Definition js_fadd (x y : js_fval) : js_fval :=
   match x, y with Some a, Some b => xadd a b | _, _ => None end.
 (* comparisons with NaN are False *)
-Definition fleb (x : fval) (y : xq) : bool := match x with Some a => xleb a y | None => false end.
-Definition fltb (x : fval) (y : xq) : bool := match x with Some a => xltb a y | None => false end.
-Definition fgeb (x : fval) (y : xq) : bool := match x with Some a => xleb y a | None => false end.
-Definition fgtb (x : fval) (y : xq) : bool := match x with Some a => xltb y a | None => false end.
-Definition feqb (x : fval) (y : xq) : bool := match x with Some a => xeqb a y | None => false end.
+Definition js_fleb (x : js_fval) (y : xq) : bool := match x with Some a => xleb a y | None => false end.
+Definition js_fltb (x : js_fval) (y : xq) : bool := match x with Some a => xltb a y | None => false end.
+Definition js_fgeb (x : js_fval) (y : xq) : bool := match x with Some a => xleb y a | None => false end.
+Definition js_fgtb (x : js_fval) (y : xq) : bool := match x with Some a => xltb y a | None => false end.
+Definition js_feqb (x : js_fval) (y : xq) : bool := match x with Some a => xeqb a y | None => false end.
 (* v == 0.0 *)
-Definition fzero (x : fval) : bool := feqb x xzero.
+Definition js_fzero (x : js_fval) : bool := js_feqb x xzero.
 
-Inductive cop := CEq | CLeq | CGeq | CNeq | CLt | CGt.
+Inductive js_cop := JsEq | JsLeq | JsGeq | JsNeq | JsLt | JsGt.
 
 (* the double 0.0001 = 0x1.a36e2eb1c432dp-14  (default argument delta, core.py:449,452) *)
 Definition js_delta : xq := F 7378697629483821 (-66).
 
 (* core.py:437-453 with y bound by functools.partial *)
-Definition js_cfun (op : cop) (y : xq) (x : fval) : fval :=
+Definition js_cfun (op : js_cop) (y : xq) (x : js_fval) : js_fval :=
   match op with
-  | CEq => fabs (fsub x y)
-  | CLeq => if fleb x y then Some xzero else fabs (fsub x y)
-  | CGeq => if fgeb x y then Some xzero else fabs (fsub x y)
-  | CNeq => if negb (feqb x y) then Some xzero else Some (FZ 1)
-  | CLt => if fltb x y then Some xzero else fadd (fabs (fsub x y)) (Some js_delta)
-  | CGt => if fgtb x y then Some xzero else fadd (fabs (fsub x y)) (Some js_delta)
+  | JsEq => js_fabs (js_fsub x y)
+  | JsLeq => if js_fleb x y then Some xzero else js_fabs (js_fsub x y)
+  | JsGeq => if js_fgeb x y then Some xzero else js_fabs (js_fsub x y)
+  | JsNeq => if negb (js_feqb x y) then Some xzero else Some (FZ 1)
+  | JsLt => if js_fltb x y then Some xzero else js_fadd (js_fabs (js_fsub x y)) (Some js_delta)
+  | JsGt => if js_fgtb x y then Some xzero else js_fadd (js_fabs (js_fsub x y)) (Some js_delta)
   end.
 
 (* the relation the operator stands for (used by the feasibility lemma and nowhere in the decoder) *)
-Definition js_holds (op : cop) (y : xq) (x : fval) : bool :=
+Definition js_holds (op : js_cop) (y : xq) (x : js_fval) : bool :=
   match op with
-  | CEq => feqb x y
-  | CLeq => fleb x y
-  | CGeq => fgeb x y
-  | CNeq => negb (feqb x y)
-  | CLt => fltb x y
-  | CGt => fgtb x y
+  | JsEq => js_feqb x y
+  | JsLeq => js_fleb x y
+  | JsGeq => js_fgeb x y
+  | JsNeq => negb (js_feqb x y)
+  | JsLt => js_fltb x y
+  | JsGt => js_fgtb x y
   end.
 
 (* ------------------------------------------------------------------ *)
@@ -174,7 +174,7 @@ Definition js_holds (op : cop) (y : xq) (x : fval) : bool :=
 Section Json.
   Variable F : Type.                                   (* float objects *)
   Variable fv : F -> option xq.                        (* exact value; None = NaN *)
-  Variable cparse : string -> option (cop * xq).       (* Constraint(op string): operator, float(threshold); None = PlatypusError *)
+  Variable cparse : string -> option (js_cop * xq).       (* Constraint(op string): operator, float(threshold); None = PlatypusError *)
   Notation jv := (jvalue F).
 
   Inductive direction := Minimize | Maximize.
@@ -199,7 +199,7 @@ Section Json.
   Record psol := mkSol {
     ps_prob : problem;
     ps_vars : list jv; ps_objs : list jv; ps_cons : list jv;
-    ps_cv : fval;                    (* constraint_violation *)
+    ps_cv : js_fval;                    (* constraint_violation *)
     ps_feas : bool                   (* feasible *)
   }.
 
@@ -254,7 +254,7 @@ Section Json.
 
   (* ---------------- violation (io.py:127-128, 143-144; core.py:194-195) ---------------- *)
   (* the number a constraint value stands for; bool is an int in Python; anything else: TypeError in x - y *)
-  Definition js_numval (j : jv) : res fval :=
+  Definition js_numval (j : jv) : res js_fval :=
     match j with
     | JInt z => Ok (Some (FZ z))
     | JNum f => Ok (fv f)
@@ -263,21 +263,21 @@ Section Json.
     end.
 
   (* abs(f(x)) for one (constraint, value) pair *)
-  Definition js_term (c : string) (x : jv) : res fval :=
+  Definition js_term (c : string) (x : jv) : res js_fval :=
     match cparse c with
     | None => Err EPlatypus
-    | Some (op, y) => v <- js_numval x ;; Ok (fabs (js_cfun op y v))
+    | Some (op, y) => v <- js_numval x ;; Ok (js_fabs (js_cfun op y v))
     end.
 
   (* sum([abs(f(x)) for (f, x) in zip(problem.constraints, solution.constraints)]) ; sum starts from 0
      and adds left to right; zip stops at the shorter list *)
-  Fixpoint js_terms (cs : list string) (xs : list jv) : res (list fval) :=
+  Fixpoint js_terms (cs : list string) (xs : list jv) : res (list js_fval) :=
     match cs, xs with
     | c :: cs', x :: xs' => t <- js_term c x ;; ts <- js_terms cs' xs' ;; Ok (t :: ts)
     | _, _ => Ok []
     end.
-  Definition js_sum (ts : list fval) : fval := fold_left fadd ts (Some xzero).
-  Definition js_viol (cs : list string) (xs : list jv) : res fval :=
+  Definition js_sum (ts : list js_fval) : js_fval := fold_left js_fadd ts (Some xzero).
+  Definition js_viol (cs : list string) (xs : list jv) : res js_fval :=
     ts <- js_terms cs xs ;; Ok (js_sum ts).
 
   (* ---------------- FixedLengthArray  a[:] = value   (core.py:54-66, convert = None) ----------------
@@ -396,7 +396,7 @@ Section Json.
   Definition reattach (p : problem) (v : pval) : res pval :=
     match v with
     | PSol s => cv <- js_viol (p_cons p) (ps_cons s) ;;
-                Ok (PSol (mkSol p (ps_vars s) (ps_objs s) (ps_cons s) cv (fzero cv)))
+                Ok (PSol (mkSol p (ps_vars s) (ps_objs s) (ps_cons s) cv (js_fzero cv)))
     | _ => Err EAttr
     end.
 
@@ -411,7 +411,7 @@ Section Json.
              end in
     let cons := fla_assign (p_nconstrs p) cs in
     cv <- js_viol (p_cons p) cons ;;
-    Ok (Some p, PSol (mkSol p (fla_assign (p_nvars p) vs) (fla_assign (p_nobjs p) os) cons cv (fzero cv))).
+    Ok (Some p, PSol (mkSol p (fla_assign (p_nvars p) vs) (fla_assign (p_nobjs p) os) cons cv (js_fzero cv))).
 
   (* io.py:115-130.  old = true: the hook before fix dc48d2e ("if self.problem is None:", no re-attachment) *)
   Definition hook_algorithm (old placeholder : bool) (d : list (string * pval)) (st : option problem)
@@ -553,7 +553,7 @@ Definition f64_val (b : Z) : option xq :=
   else Some (F (sg (m + Z.shiftl 1 52)) (e - 1075)).
 
 (* Constraint(op string) as a table shipped by the driver from the real Constraint objects *)
-Fixpoint ctab_lookup (tab : list (string * (cop * xq))) (s : string) : option (cop * xq) :=
+Fixpoint ctab_lookup (tab : list (string * (js_cop * xq))) (s : string) : option (js_cop * xq) :=
   match tab with
   | [] => None
   | (k, v) :: r => if String.eqb s k then Some v else ctab_lookup r s
